@@ -150,7 +150,7 @@ def check(prop, tier, seed, replay=None):
         if bad:
             run.violation(bad, rp)
         return run.finish()
-    res, vecs = vectors(3, 4)
+    res, vecs = vectors(3, 4) if tier == "quick" else vectors(3, 6)
     run.add_tlc("MC TdfCtor", res)
     run.cov["exhaustive"] = True
     n = 0
